@@ -688,6 +688,16 @@ func (a *panicAudit) boundsSafe(fn *ssa.Function, in ssa.Instruction) (bool, str
 	if ok, why := a.foundIndex(in, base, idx, isSlice); ok {
 		return true, why
 	}
+	// (10) s[k:] after strings.HasPrefix(s, "<at least k bytes>") held
+	if isSlice {
+		if sl := in.(*ssa.Slice); sl.High == nil && sl.Max == nil && sl.Low != nil {
+			if k, ok := constInt(sl.Low); ok && k >= 0 {
+				if a.prefixGuard(in.Block(), base, k) {
+					return true, "the string was tested to start with a constant at least that long"
+				}
+			}
+		}
+	}
 	// (8) s[strings.(Last)Index*(s, x)+1:]: the index functions answer -1..len(s)-1, so the low bound is 0..len(s)
 	if isSlice {
 		if sl := in.(*ssa.Slice); sl.High == nil && sl.Max == nil && sl.Low != nil {
@@ -1376,8 +1386,11 @@ func (a *panicAudit) foundIndex(in ssa.Instruction, base, idx ssa.Value, isSlice
 		default:
 			return false, ""
 		}
-		if c.Common().Args[0] != base {
-			return false, ""
+		if a0 := c.Common().Args[0]; a0 != base {
+			// a position found in a prefix base[:k] is a position in base as well
+			if sl, isSl := a0.(*ssa.Slice); !(isSl && sl.X == base && sl.Low == nil && sl.Max == nil) {
+				return false, ""
+			}
 		}
 		if found != nil && found != c {
 			return false, ""
@@ -1518,4 +1531,36 @@ func (a *panicAudit) nonNegative(v ssa.Value, at *ssa.BasicBlock, depth int) (bo
 		}
 	}
 	return false, "the size " + describeValue(a.p, v) + " comes from data or a computation that may be negative"
+}
+
+// prefixGuard: the block is only reached when strings.HasPrefix(base, c) held for a constant c of at least k bytes
+// (or base != "" for k == 1).
+func (a *panicAudit) prefixGuard(at *ssa.BasicBlock, base ssa.Value, k int64) bool {
+	for d := at; d != nil; d = d.Idom() {
+		id := d.Idom()
+		if id == nil {
+			break
+		}
+		iff, isIf := id.Instrs[len(id.Instrs)-1].(*ssa.If)
+		if !isIf || !(id.Succs[0] == d && len(d.Preds) == 1) {
+			continue
+		}
+		switch c := iff.Cond.(type) {
+		case *ssa.Call:
+			sc := c.Common().StaticCallee()
+			if sc == nil || sc.String() != "strings.HasPrefix" || c.Common().Args[0] != base {
+				continue
+			}
+			if pc, ok := c.Common().Args[1].(*ssa.Const); ok && pc.Value != nil && pc.Value.Kind() == constant.String && int64(len(constant.StringVal(pc.Value))) >= k {
+				return true
+			}
+		case *ssa.BinOp:
+			if c.Op == token.NEQ && c.X == base && k <= 1 {
+				if pc, ok := c.Y.(*ssa.Const); ok && pc.Value != nil && pc.Value.Kind() == constant.String && constant.StringVal(pc.Value) == "" {
+					return true
+				}
+			}
+		}
+	}
+	return false
 }
